@@ -963,6 +963,18 @@ orc_compiler_rewrite_insns (OrcCompiler *compiler)
             if (!compiler->vars[l].has_parameter) continue;
             if (compiler->vars[l].parameter != insn.src_args[i]) continue;
             if (compiler->vars[l].size != opcode->src_size[i] * multiplier) continue;
+            /* Same total size is not enough: "x2 addb" wants the byte
+             * repeated, "addw" the 16-bit value.  Reuse only what was
+             * loaded with the same element size. */
+            {
+              int m;
+              for (m = 0; m < compiler->n_insns; m++) {
+                if ((compiler->insns[m].flags & ORC_INSN_FLAG_ADDED) &&
+                    compiler->insns[m].dest_args[0] == l) break;
+              }
+              if (m == compiler->n_insns || compiler->insns[m].opcode !=
+                  get_loadp_opcode_for_size (opcode->src_size[i])) continue;
+            }
             loaded = l;
             break;
           }
